@@ -704,6 +704,24 @@ Check C07_error_free_field : forall ind iel mll f more, ind_pos ind -> xwf_field
   xfield_canon (xn ind f) f' = true.
 Print Assumptions C07_error_free_field.
 
+(* 15. The same reading of the re-read clause for the control wrappers with the real relations
+       branch, on the domain of C07_control_real: the printed result is the rendering of a well-formed
+       layout, whose tree the strict reader returns, with the reported content (so the formatter's
+       output, too, stays inside the image of the reader). *)
+Theorem C07_control_real_image : forall c d, ind_ok c = true -> wf_doc d = true -> ctl_doc_ok (lift d) ->
+  let t1 := ltree_of (a_ws_doc (Some control_cmp) (a_ws_items c None (Some ctl_total)) (lift d)) in
+  real_control_ws c (tree_of d) = Ok t1 /\
+  exists D, xwf_doc D = true /\ xrender D = text t1 /\ from_str (text t1) = Ok (xtree_of D) /\ doc_items (xtree_of D) = doc_items t1.
+Proof.
+  intros c d Hc Hd Hok t1. destruct (real_control_proof c d Hc Hd Hok) as (A & _ & (t' & B & C) & _). split; [exact A|].
+  destruct (parse_image_complete _ _ B) as (D & W & E1 & E2). exists D. subst t'. repeat split; assumption.
+Qed.
+Check C07_control_real_image : forall c d, ind_ok c = true -> wf_doc d = true -> ctl_doc_ok (lift d) ->
+  let t1 := ltree_of (a_ws_doc (Some control_cmp) (a_ws_items c None (Some ctl_total)) (lift d)) in
+  real_control_ws c (tree_of d) = Ok t1 /\
+  exists D, xwf_doc D = true /\ xrender D = text t1 /\ from_str (text t1) = Ok (xtree_of D) /\ doc_items (xtree_of D) = doc_items t1.
+Print Assumptions C07_control_real_image.
+
 (* ---------------------------------------------------------------- non-vacuity *)
 Module Examples.
   Import Coq.Strings.String.
